@@ -165,3 +165,7 @@ def replay(ctx, case):
 def run(ctx):
     strat = G.grammar_strings(10 if ctx.tier == "quick" else 16).map(lambda s: {"s": s})
     hyp_run(ctx, "grammar-strings", strat, check_string, ctx.n(12000, 100000))
+    if ctx.tier == "thorough":
+        from . import fuzz
+
+        fuzz.campaign(ctx, "c03")
